@@ -11,11 +11,16 @@ for x in r:
     elif how=='harness': what='bounded harness only (no contract on the changed code yet)'
     else: what=how
     rows.append('| %s | %s | %s | %s |'%(x['seed'],x.get('title','')[:110].replace('|','/'),how,what))
-tab='`tools/seedtest.py` applies each change in `seeded/` to a scratch copy of the working tree and runs the registered quick check there. Last run (all 39 changes, every one compiles and passes the 61 tests):\n\n| seed | change | caught by | how |\n|---|---|---|---|\n'+'\n'.join(rows)
+tab='`tools/seedtest.py` applies each change in `seeded/` to a scratch copy of the working tree and runs the registered quick check there. Last run (every change compiles and passes the 61 tests):\n\n| seed | change | caught by | how |\n|---|---|---|---|\n'+'\n'.join(rows)
 cnt={}
 for x in r: cnt[x['detected_by']]=cnt.get(x['detected_by'],0)+1
 tab+='\n\nTotals: '+', '.join('%s %d'%(k,v) for k,v in sorted(cnt.items()))+'. '+open('/verif/tools/seednotes.md').read()
-asbuilt=open('/verif/tools/asbuilt.md').read().replace('SEEDTABLE',tab)
+try:
+    nr=json.load(open('/verif/neutral/RESULTS.json'))
+    ntab='; '.join('%s (%s): exit %d%s'%(x['edit'],x['property'],x['check_exit'],' via R4 fallback' if x.get('ungenerated') else '') for x in nr)+'.'
+except Exception:
+    ntab='(not run yet).'
+asbuilt=open('/verif/tools/asbuilt.md').read().replace('SEEDTABLE',tab).replace('NEUTRALTABLE',ntab)
 p='/verif/DESIGN.md'
 s=open(p).read()
 a=s.index('## A. As built'); b=s.index('---------------------------------------------------------------------------\n\n## 0. Summary table')
